@@ -128,6 +128,7 @@ def parseOp (tok : String) : Option (Op CF × Kernels CF) :=
       some (.decode nr l (toMat nr l ys), K)
   | "flt" :: v :: _ => (parseC 1 v).map (fun a => (.filters (a.getD 0 0), K))
   | "sinr" :: v :: _ => (parseC 1 v).map (fun a => (.sinr (a.getD 0 0), K))
+  | "chan" :: _ => some (.channel, K)
   | _ => none
 
 def showOut : Out CF → String
